@@ -1,3 +1,246 @@
-import ScionTime.Model.Multipath
+/-
+  C15 — Multipath SCION measurement probes pairwise distinct paths, combined by FTM.
+  Property theorems only; models: ScionTime/Model/Sample.lean (crypto.RandIntn/Sample),
+  ScionTime/Model/Multipath.lean (MeasureClockOffsetSCION); helper lemmas in
+  ScionTime/Proofs/{Sample,Multipath}.lean.
+-/
+import ScionTime.Proofs.Sample
+import ScionTime.Proofs.Multipath
 namespace ScionTime.C15
+open ScionTime.Sample ScionTime.Multipath List
+
+/-! ## The assignment (first three loops of MeasureClockOffsetSCION)
+
+`assign f11 cs offered cancelled stream = (.ok sps rest, reset)`: `sps[i]` is the path
+(position in the offered list, fingerprint) client `i` probes, `reset[i]` whether the client and
+its filter were reset. All statements are for every client state, every offered list
+(duplicates, empty fingerprints), every random stream and both variants of the F11 guard. -/
+
+/-- Participants ↦ positions of the offered list is injective, and every assigned path is
+    the offered path at that position. -/
+theorem C15_assignment_injective (f : Bool) (cs : List Client) (offered : List Fp) (c : Bool)
+    (s : Stream) (sps : List (Option Path)) (rest : Stream) (reset : List Bool)
+    (h : assign f cs offered c s = (.ok sps rest, reset)) :
+    ((assignedOf sps).map Prod.fst).Nodup ∧
+    ∀ p ∈ assignedOf sps, offered[p.1]? = some p.2 := by
+  obtain ⟨_, ⟨r, hr⟩, _⟩ := assign_ok_spec f cs offered c s sps rest reset h
+  constructor
+  · have h1 := hr.map Prod.fst
+    have h2 : (offeredPaths offered).map Prod.fst = List.range offered.length := by
+      unfold offeredPaths; exact map_fst_zip (by simp)
+    rw [h2, map_append] at h1
+    have := (h1.nodup_iff).mpr nodup_range
+    exact (nodup_append.mp this).1
+  · intro p hp
+    have hm : p ∈ offeredPaths offered := hr.subset (mem_append_left r hp)
+    unfold offeredPaths at hm
+    obtain ⟨i, hi, he⟩ := mem_iff_getElem.mp hm
+    simp only [getElem_zip, getElem_range] at he
+    simp only [length_zip, length_range, Nat.min_self] at hi
+    rw [← he]; simp [hi]
+
+/-- The same as a statement about client indices: two different clients never probe the
+    same offered position. -/
+theorem C15_distinct_clients_distinct_paths (f : Bool) (cs : List Client) (offered : List Fp)
+    (c : Bool) (s : Stream) (sps : List (Option Path)) (rest : Stream) (reset : List Bool)
+    (h : assign f cs offered c s = (.ok sps rest, reset))
+    (i j : Nat) (p q : Path) (hi : sps[i]? = some (some p)) (hj : sps[j]? = some (some q))
+    (hpos : p.1 = q.1) : i = j := by
+  have hn := (C15_assignment_injective f cs offered c s sps rest reset h).1
+  clear h
+  unfold assignedOf at hn
+  induction sps generalizing i j with
+  | nil => simp at hi
+  | cons a sps ih =>
+    cases a with
+    | none =>
+      simp only [filterMap_cons, id_eq] at hn
+      cases i with
+      | zero => simp at hi
+      | succ i =>
+        cases j with
+        | zero => simp at hj
+        | succ j =>
+          simp only [getElem?_cons_succ] at hi hj
+          rw [ih i j hi hj hn]
+    | some a =>
+      simp only [filterMap_cons, id_eq, map_cons, nodup_cons] at hn
+      have hmem : ∀ (k : Nat) (x : Path), sps[k]? = some (some x) → x.1 ∈ (filterMap id sps).map Prod.fst := by
+        intro k x hk
+        apply mem_map.mpr
+        refine ⟨x, mem_filterMap.mpr ⟨some x, mem_of_getElem? hk, rfl⟩, rfl⟩
+      cases i with
+      | zero =>
+        cases j with
+        | zero => rfl
+        | succ j =>
+          simp only [getElem?_cons_zero, Option.some.injEq, getElem?_cons_succ] at hi hj
+          subst hi
+          exact absurd (hpos ▸ hmem j q hj) hn.1
+      | succ i =>
+        cases j with
+        | zero =>
+          simp only [getElem?_cons_zero, Option.some.injEq, getElem?_cons_succ] at hi hj
+          subst hj
+          exact absurd (hpos ▸ hmem i p hi) hn.1
+        | succ j =>
+          simp only [getElem?_cons_succ] at hi hj
+          rw [ih i j hi hj hn.2]
+
+/-- No more clients take part than there are paths, and as many as possible:
+    participants = min(clients, paths); `sps` has one entry per client. -/
+theorem C15_participants (f : Bool) (cs : List Client) (offered : List Fp) (c : Bool)
+    (s : Stream) (sps : List (Option Path)) (rest : Stream) (reset : List Bool)
+    (h : assign f cs offered c s = (.ok sps rest, reset)) :
+    sps.length = cs.length ∧ countSome sps = min cs.length offered.length := by
+  obtain ⟨h1, _, h3, _⟩ := assign_ok_spec f cs offered c s sps rest reset h
+  exact ⟨h1, h3⟩
+
+/-- Sticky assignment. When client `i`'s turn comes (candidates = offered paths not taken by
+    earlier clients): if it wants its previous path (`wantsSticky`: in interleaved mode, and —
+    code as found, `f = false` — its previous fingerprint is not "") and a candidate has that
+    fingerprint, it probes the first such candidate and is not reset; otherwise it is reset
+    (together with its filter). -/
+theorem C15_sticky_kept (f : Bool) (cs : List Client) (offered : List Fp) (c : Bool)
+    (s : Stream) (sps : List (Option Path)) (rest : Stream) (reset : List Bool)
+    (h : assign f cs offered c s = (.ok sps rest, reset))
+    (i : Nat) (cl : Client) (hcl : cs[i]? = some cl) :
+    let cand := candidatesAt f cs (offeredPaths offered) i
+    (wantsSticky f cl = true ∧ (∃ p ∈ cand, p.2 = cl.ipath) →
+      ∃ j, ∃ hj : j < cand.length, sps[i]? = some (some cand[j]) ∧ cand[j].2 = cl.ipath ∧
+        (∀ j' (hj' : j' < j), cand[j'].2 ≠ cl.ipath) ∧ reset[i]? = some false) ∧
+    (¬ (wantsSticky f cl = true ∧ (∃ p ∈ cand, p.2 = cl.ipath)) → reset[i]? = some true) := by
+  intro cand
+  obtain ⟨_, _, _, _, hreset, hkeep⟩ := assign_ok_spec f cs offered c s sps rest reset h
+  have hget := stickyLoop_get f cs (offeredPaths offered) i
+  rw [hcl, Option.map_some] at hget
+  have hres : reset[i]? = some ((stickyStep f cl cand).1.isNone) := by
+    rw [hreset, getElem?_map, hget]; rfl
+  rcases stickyStep_cases f cl cand with ⟨h1, _⟩ | ⟨j, hj, hw, hfind, h1, _⟩
+  · -- nothing taken: either the client does not want a path or no candidate matches
+    have hno : ¬ (wantsSticky f cl = true ∧ (∃ p ∈ cand, p.2 = cl.ipath)) := by
+      rintro ⟨hw, p, hp, hfp⟩
+      unfold stickyStep at h1
+      simp only [hw, ↓reduceIte] at h1
+      split at h1
+      · split at h1 <;> simp at h1
+        rename_i j hj' _ hnone
+        have := (findIdx?_eq_some_iff_getElem.mp hj').1
+        simp [getElem?_eq_getElem this] at hnone
+      · rename_i hnone
+        rw [findIdx?_eq_none_iff] at hnone
+        have := hnone p hp
+        simp [hfp] at this
+    refine ⟨fun hyes => absurd hyes hno, fun _ => ?_⟩
+    rw [hres, h1]; rfl
+  · obtain ⟨_, hpj, hfirst⟩ := findIdx?_eq_some_iff_getElem.mp hfind
+    have hfp : cand[j].2 = cl.ipath := by simpa using hpj
+    constructor
+    · intro _
+      refine ⟨j, hj, ?_, hfp, ?_, ?_⟩
+      · apply hkeep; rw [hget, h1]
+      · intro j' hj'; simpa using hfirst j' hj'
+      · rw [hres, h1]; rfl
+    · intro hno
+      exact absurd ⟨hw, cand[j], getElem_mem hj, hfp⟩ hno
+
+/-- `errNoPath`: a round that assigns paths needs at least one client and one path … -/
+theorem C15_ok_needs_client_and_path (f : Bool) (cs : List Client) (offered : List Fp) (c : Bool)
+    (s : Stream) (sps : List (Option Path)) (rest : Stream) (reset : List Bool)
+    (h : assign f cs offered c s = (.ok sps rest, reset)) :
+    cs ≠ [] ∧ offered ≠ [] := by
+  obtain ⟨_, _, h3, h4, _⟩ := assign_ok_spec f cs offered c s sps rest reset h
+  constructor
+  · rintro rfl
+    have : countSome sps = 0 := by simpa using h3
+    omega
+  · rintro rfl
+    have : countSome sps = 0 := by simpa using h3
+    omega
+
+/-- … and with no path offered the round reports `errNoPath` (no random draw is made), for
+    any clients — all of which are reset. -/
+theorem C15_no_path_error (ftm : List Int → Int) (f11 f12 : Bool) (cs : List Client) (c : Bool)
+    (s : Stream) (succ : List (Option Int)) :
+    (round ftm f11 f12 cs [] c s succ).res = .errNoPath ∧
+    (round ftm f11 f12 cs [] c s succ).reset = cs.map fun _ => true := by
+  have hs : ∀ K : Nat, sample (K : Int) ((0 : Nat) : Int) c s = .ok (0, [], s) := by
+    intro K
+    unfold sample
+    have h1 : ¬ ((K : Int) < 0) := by omega
+    simp [h1, sampleLoop, sampleLoopWith]
+  have hcs : ∀ cs : List Client, countSome (cs.map fun _ => (none : Option Path)) = 0 := by
+    intro cs; induction cs <;> simp_all [countSome]
+  have ha : assign f11 cs [] c s = (.errNoPath s, cs.map fun _ => true) := by
+    unfold assign offeredPaths
+    simp only [length_nil, range_zero, zip_nil_right, stickyLoop_nil]
+    unfold assignFrom
+    simp only [length_map, hcs, length_nil]
+    have := hs cs.length
+    simp only [Int.natCast_zero, Int.sub_zero] at this ⊢
+    rw [this]
+    simp
+  unfold round
+  rw [ha]
+  exact ⟨rfl, rfl⟩
+
+/-- With no client there is never a successful round either. -/
+theorem C15_no_client_error (ftm : List Int → Int) (f11 f12 : Bool) (offered : List Fp) (c : Bool)
+    (s : Stream) (succ : List (Option Int)) (off : Int) :
+    (round ftm f11 f12 [] offered c s succ).res ≠ .ok off := by
+  intro h
+  unfold round at h
+  split at h <;> try (simp at h)
+  rename_i sps rest reset ha
+  exact (C15_ok_needs_client_and_path f11 [] offered c s sps rest reset ha).1 rfl
+
+/-- The reported offset is the fault-tolerant midpoint over exactly one value per
+    participating client (the filter output of a successful exchange, the zero measurement of
+    a failed one — that is what the code does), at least one of them from a successful
+    exchange (repaired code, F12); the number of values is min(clients, paths). `ftm` is
+    measurements.FaultTolerantMidpoint (C02's subject), a parameter here; if it is invariant
+    under permutations (it sorts) the completion order of the per-path goroutines, i.e. the
+    order in which collectMeasurements stores the values, does not matter. -/
+theorem C15_result_is_ftm (ftm : List Int → Int) (f11 : Bool) (cs : List Client) (offered : List Fp)
+    (s : Stream) (succ : List (Option Int)) (off : Int) (hsucc : succ.length = cs.length)
+    (h : (round ftm f11 true cs offered false s succ).res = .ok off) :
+    ∃ sps rest reset, assign f11 cs offered false s = (.ok sps rest, reset) ∧
+      off = ftm (values sps succ) ∧
+      (values sps succ).length = min cs.length offered.length ∧
+      0 < successes sps succ ∧
+      (∀ order : List Int, (∀ l l' : List Int, l.Perm l' → ftm l = ftm l') →
+        order.Perm (values sps succ) → off = ftm order) := by
+  unfold round at h
+  split at h <;> try (simp at h)
+  rename_i sps rest reset ha
+  refine ⟨sps, rest, reset, ha, ?_⟩
+  obtain ⟨hl, hc⟩ := C15_participants f11 cs offered false s sps rest reset ha
+  split at h
+  · simp at h
+  · rename_i hne
+    simp only [RoundRes.ok.injEq] at h
+    refine ⟨h.symm, ?_, ?_, ?_⟩
+    · rw [values_length sps succ (by omega), hc]
+    · omega
+    · intro order hperm ho
+      rw [← h]; exact (hperm _ _ ho).symm
+
+/-- F12, code as found (`f12fixed = false`): with one client, one path and a failing
+    exchange the round reports success with the midpoint of the zero-initialised slice —
+    `(time.Time{}, 0, nil)` for the real FTM — whatever `ftm` is. The repaired code reports
+    `errNoMeasurement`. Failing input of the check:
+    `mp.round cs=[100-] ps=[f0] s=a7ec204cc759cd2657c241d966a8aea8 succ=[x]`. -/
+theorem C15_F12_old_counterexample (ftm : List Int → Int) :
+    (round ftm false false [⟨true, false, false, ""⟩] ["f0"] false [] [none]).res = .ok (ftm [0]) ∧
+    (round ftm false true [⟨true, false, false, ""⟩] ["f0"] false [] [none]).res = .errNoMeasurement := by
+  constructor <;> rfl
+
+/-- F11, code as found (`f11fixed = false`): an interleaved client whose previous path has the
+    empty fingerprint (the intra-AS path) is reset although that path is offered; the repaired
+    guard keeps it. Failing input of the check: `mp.round cs=[111-] ps=[-] s=… succ=[7]`. -/
+theorem C15_F11_old_counterexample :
+    (assign false [⟨true, true, true, ""⟩] [""] false []).2 = [true] ∧
+    (assign true [⟨true, true, true, ""⟩] [""] false []).2 = [false] := by
+  constructor <;> decide
+
 end ScionTime.C15
